@@ -1,4 +1,5 @@
 """C10 — UDP datagram fidelity and session isolation (the accept step of the reverse UDP listener)."""
+import harness
 from specs import udp
 
 
